@@ -207,7 +207,7 @@ def subst_jets(pl, base):
     return sub(pl)
 
 
-def fans_oracle(coords2, time, F=None, wall=None, S_override=None):
+def fans_oracle(coords2, time, F=None, wall=None, S_override=None, fv1_override=None):
     """Favre-averaged compressible Navier-Stokes closed with Spalart-Allmaras.  F: field polynomials (jet symbols by
     default).  wall = (d, f_w, c_w1) adds the wall destruction term; S_override replaces |omega| by the given S."""
     if F is None:
@@ -216,7 +216,7 @@ def fans_oracle(coords2, time, F=None, wall=None, S_override=None):
     mu = S('mu')
     chi = mul(mul(rho, nu), S('mu', -1))
     chi3 = poly.ipow(chi, 3)
-    fv1 = mul(chi3, inv(add(chi3, poly.ipow(S('c_v1'), 3))))
+    fv1 = mul(chi3, inv(add(chi3, poly.ipow(S('c_v1'), 3)))) if fv1_override is None else fv1_override
     mut = mul(mul(rho, nu), fv1)
     mueff = add(mu, mut)
     vel = [u, v]
@@ -363,6 +363,187 @@ def subst_t0(p):
     return sub(p)
 
 
+def check_wall(ctx, prog):
+    """fans_sa_steady_wall_bounded: sources == FANS-SA residual of the composite wall-law fields.
+
+    Layered, so that no expression is ever expanded further than needed:
+      1. update() is evaluated once; members whose value does not contain a coordinate are constants (frozen as symbols);
+      2. u_tau and y_plus are kept as symbols whose derivatives are closed forms *proved by the engine* from their definitions
+         (u_tau ~ x^(-1/14): 14 x d(u_tau)/dx + u_tau == 0; y_plus = y u_tau / nu_w);
+      3. T is kept as a symbol whose derivative is the chain rule through its definition (computed, not claimed), which keeps
+         1/T a monomial instead of the reciprocal of a five-term polynomial;
+      4. the closure quantities that the equations use undifferentiated (Omega, Sm, f_w) are symbols in the residual and are
+         compared with the Spalart-Allmaras definitions separately;
+      5. each of the five sources is compared with the residual operator on the exact fields the API returns."""
+    res = {}
+    for scalar in cat.SCALARS:
+        cls = 'MASA::fans_sa_steady_wall_bounded<%s>' % scalar
+        ctx.require(cls in prog.records, '%s not in IR' % cls)
+        up = [f for f in prog.methods_of(cls) if f.n == 'update']
+        ctx.require(len(up) == 1, 'fans_sa_steady_wall_bounded::update not found')
+        up = up[0]
+        co = ['x', 'y']
+        # ---- 1. constants
+        E0 = terms.Evaluator(prog, dyn_class=cls, scalar=scalar)
+        o0 = E0.run(up, arg_names=co)
+        ctx.require(1 <= len(o0) <= 4, 'update() has %d paths' % len(o0))
+        members = set(o0[0].mem)
+        for o_ in o0[1:]:
+            members &= set(o_.mem)
+        # the two instantiations are compared term by term (cheap); the normal-form work is done once, for double
+        sig = []
+        for eq in ('rho', 'rho_u', 'rho_v', 'rho_e', 'nu'):
+            fq = [f for f in prog.methods_of(cls) if f.n == 'eval_q_' + eq and len(f.params) == 2]
+            ctx.require(len(fq) == 1, 'fans_sa_steady_wall_bounded::eval_q_%s(x,y) missing' % eq)
+            Eq_ = terms.Evaluator(prog, dyn_class=cls, scalar=scalar)
+            oq = Eq_.run(fq[0], arg_names=co)
+            sig.append(repr([(o_.conds, o_.ret) for o_ in oq]).replace(scalar, 'S'))
+        res[scalar] = sig
+        if scalar != 'double':
+            continue
+        const = sorted(m for m in members if not any(set(co) & terms.syms(o_.mem[m]) for o_ in o0) and m not in ('cp',)
+                       and terms.syms(o0[0].mem[m]))        # a member that is a plain number (D2vDy2 = 0) keeps its value
+        keep = {'u_tau': 'u_tau', 'y_plus': 'yp', 'T': 'T'}
+        closure = {'f_w': '@f_w', 'Sm': '@Sm', 'Omega': '@Omega'}
+        for need in list(keep) + list(closure) + ['U', 'V', 'RHO', 'NU_SA', 'c_w1', 'd']:
+            ctx.require(need in members, 'fans_sa_steady_wall_bounded::update does not assign %s' % need)
+        FZ = {c: c for c in const}
+        FZ.update(keep)
+        FZ.update(closure)
+        poly.SYM_RULES = {}
+        try:
+            # ---- 2. u_tau and y_plus
+            Ec = terms.Evaluator(prog, dyn_class=cls, scalar=scalar)
+            Ec.freeze = {c: c for c in const}
+            oc = Ec.run(up, arg_names=co)
+            ut = poly.from_term(oc[0].mem['u_tau'])
+            lem = poly.witness(add(mul(poly.scale(S('x'), 14), d(ut, 'x')), ut))
+            lem_y = poly.witness(d(ut, 'y'))
+            if True:
+                ctx.ob('C05.FW-LEMMA', 'u_tau', not lem and not lem_y, up.where, 'u_tau does not satisfy 14 x du_tau/dx + u_tau = 0, du_tau/dy = 0: %s' % poly.fmt(lem or lem_y, 2)[:100],
+                       sample='u_tau = u_inf sqrt(c_f/2), c_f ~ Re_x^(-1/7): 14 x d(u_tau)/dx + u_tau == 0')
+            rules = {('u_tau', 'x'): mul(poly.const(Fraction(-1, 14)), mul(S('u_tau'), S('x', -1)))}
+            poly.SYM_RULES = dict(rules)
+            Ey = terms.Evaluator(prog, dyn_class=cls, scalar=scalar)
+            Ey.freeze = dict({c: c for c in const}, u_tau='u_tau')
+            oy = Ey.run(up, arg_names=co)
+            ypd = poly.from_term(oy[0].mem['y_plus'])
+            lx = poly.witness(add(mul(poly.scale(S('x'), 14), d(ypd, 'x')), ypd))
+            ly = poly.witness(add(mul(S('y'), d(ypd, 'y')), ypd, -1))
+            if scalar == 'double':
+                ctx.ob('C05.FW-LEMMA', 'y_plus', not lx and not ly, up.where, 'y_plus does not satisfy 14 x dyp/dx + yp = 0, y dyp/dy = yp',
+                       sample='y_plus = y u_tau / nu_w: dyp/dx = -yp/(14x), dyp/dy = yp/y')
+            rules[('yp', 'x')] = mul(poly.const(Fraction(-1, 14)), mul(S('yp'), S('x', -1)))
+            rules[('yp', 'y')] = mul(S('yp'), S('y', -1))
+            poly.SYM_RULES = dict(rules)
+            # ---- 3. T: chain rule through its definition
+            Et = terms.Evaluator(prog, dyn_class=cls, scalar=scalar)
+            Et.freeze = {k_: v_ for k_, v_ in FZ.items() if k_ != 'T'}
+            ot = Et.run(up, arg_names=co)
+            Tdef = poly.from_term(ot[0].mem['T'])
+            for c_ in co:
+                rules[('T', c_)] = d(Tdef, c_)
+            poly.SYM_RULES = dict(rules)
+            # ---- 4. closure definitions (members expanded down to the kept symbols; both limiter branches)
+            Em = terms.Evaluator(prog, dyn_class=cls, scalar=scalar)
+            Em.freeze = {k_: v_ for k_, v_ in FZ.items() if k_ not in closure}
+            om = Em.run(up, arg_names=co)
+            M = lambda n_, i_=0: poly.from_term(om[i_].mem[n_])
+            kap2 = mul(S('kappa'), S('kappa'))
+            if scalar == 'double':
+                U_, V_ = M('U'), M('V')
+                vort = add(d(U_, 'y'), d(V_, 'x'), -1)
+                Om = M('Omega')
+                rs.compare(ctx, 'C05.FW-CLOSURE', 'wall|Omega^2', mul(Om, Om), mul(vort, vort), up.where, 'Omega^2 vs (dU/dy - dV/dx)^2')
+                rho_, nu_ = M('RHO'), M('NU_SA')
+                chi = mul(mul(rho_, nu_), S('mu', -1))
+                chi3 = poly.ipow(chi, 3)
+                fv1 = mul(chi3, inv(add(chi3, poly.ipow(S('c_v1'), 3))))
+                fv2 = add(poly.const(1), mul(chi, inv(add(poly.const(1), mul(chi, fv1)))), -1)
+                dist = M('d')
+                rs.compare(ctx, 'C05.FW-CLOSURE', 'wall|d', dist, S('y'), up.where, 'wall distance d')
+                rs.compare(ctx, 'C05.FW-CLOSURE', 'wall|f_v1', M('f_v1'), fv1, up.where, 'f_v1')
+                rs.compare(ctx, 'C05.FW-CLOSURE', 'wall|f_v2', M('f_v2'), fv2, up.where, 'f_v2')
+                rs.compare(ctx, 'C05.FW-CLOSURE', 'wall|mu_t', M('mu_t'), mul(mul(rho_, nu_), fv1), up.where, 'mu_t = rho nu f_v1')
+                Sbar = mul(mul(nu_, fv2), inv(mul(kap2, mul(dist, dist))))
+                rs.compare(ctx, 'C05.FW-CLOSURE', 'wall|Sbar', M('Sm_orig'), Sbar, up.where, 'Sbar = nu f_v2/(kappa^2 d^2)')
+                # limiter: Sm = Sbar when -cv2 Omega <= Sbar, else Omega (cv2^2 Omega + cv3 Sbar)/((cv3 - 2 cv2) Omega - Sbar)
+                # the limiter, however it is written (if/else, ternary): alternatives of Sm with the condition that selects them
+                alts = []
+                for o_ in om:
+                    for cs_, v_ in terms.split_ite(list(o_.conds), o_.mem['Sm']):
+                        alts.append((cs_, v_))
+                want_c = (poly.neg(mul(S('c_v2'), Om)), M('Sm_orig'))
+
+                def regular_side(cs_):
+                    # True when the conditions say -c_v2 Omega <= Sbar, False when they say the opposite, None otherwise
+                    for c0 in cs_:
+                        neg = False
+                        while c0[0] == 'not':
+                            neg = not neg
+                            c0 = c0[1]
+                        if c0[0] != 'cmp' or c0[1] not in ('<', '<=', '>', '>='):
+                            continue
+                        try:
+                            A_, B_ = poly.from_term(c0[2]), poly.from_term(c0[3])
+                        except ValueError:
+                            continue
+                        if poly.equal(A_, want_c[0]) and poly.equal(B_, want_c[1]):
+                            return (c0[1] in ('<', '<=')) != neg
+                        if poly.equal(B_, want_c[0]) and poly.equal(A_, want_c[1]):
+                            return (c0[1] in ('>', '>=')) != neg
+                    return None
+                sides = [regular_side(cs_) for cs_, v_ in alts]
+                okb = len(alts) == 2 and sorted(sides, key=str) == [False, True]
+                ctx.ob('C05.FW-CLOSURE', 'wall|S-branch', okb, up.where, 'update() does not select Sm by comparing -c_v2 Omega with Sbar (alternatives: %s)' % sides,
+                       sample='Sm = (-c_v2*Omega <= Sbar) ? Sbar : modified')
+                if okb:
+                    got_reg = poly.from_term([v_ for (cs_, v_), sd in zip(alts, sides) if sd][0])
+                    got_mod = poly.from_term([v_ for (cs_, v_), sd in zip(alts, sides) if not sd][0])
+                    want_mod = mul(Om, mul(add(mul(mul(S('c_v2'), S('c_v2')), Om), mul(S('c_v3'), M('Sm_orig'))),
+                                          inv(add(mul(add(S('c_v3'), poly.scale(S('c_v2'), -2)), Om), M('Sm_orig'), -1))))
+                    rs.compare(ctx, 'C05.FW-CLOSURE', 'wall|S-regular', got_reg, M('Sm_orig'), up.where, 'Sm (regular branch)')
+                    rs.compare(ctx, 'C05.FW-CLOSURE', 'wall|S-modified', got_mod, want_mod, up.where, 'Sm (negative-S modification)')
+                # r, g, f_w, c_w1 as functions of their inputs (inputs kept as symbols)
+                Ef = terms.Evaluator(prog, dyn_class=cls, scalar=scalar)
+                Ef.freeze = dict({m: m for m in members if m not in ('r', 'g', 'f_w', 'c_w1', 'S_sa')}, Sm='@Sm', Omega='@Omega', NU_SA='@nu', d='@d')
+                of = Ef.run(up, arg_names=co)
+                Ssym = add(S('@Sm'), S('@Omega'))
+                r_want = mul(S('@nu'), inv(mul(mul(Ssym, kap2), mul(S('@d'), S('@d')))))
+                rs.compare(ctx, 'C05.FW-CLOSURE', 'wall|r', poly.from_term(of[0].mem['r']), r_want, up.where, 'r = nu/(S kappa^2 d^2), S = Sm + Omega')
+                r6 = poly.ipow(r_want, 6)
+                g_want = add(r_want, mul(S('c_w2'), add(r6, r_want, -1)))
+                rs.compare(ctx, 'C05.FW-CLOSURE', 'wall|g', poly.from_term(of[0].mem['g']), g_want, up.where, 'g = r + c_w2 (r^6 - r)')
+                # f_w = g ((1 + c_w3^6)/(g^6 + c_w3^6))^(1/6), with g as an input symbol (g itself is compared above)
+                Eg = terms.Evaluator(prog, dyn_class=cls, scalar=scalar)
+                Eg.freeze = dict({m: m for m in members if m not in ('f_w',)}, g='@g')
+                og = Eg.run(up, arg_names=co)
+                g_ = ('sym', '@g')
+                cw3_6 = ('call', 'pow', (('sym', 'c_w3'), ('num', Fraction(6))))
+                fw_t = ('mul', (g_, ('call', 'pow', (('div', ('add', (('num', Fraction(1)), cw3_6)), ('add', (('call', 'pow', (g_, ('num', Fraction(6)))), cw3_6))),
+                                                   ('div', ('num', Fraction(1)), ('num', Fraction(6)))))))
+                rs.compare(ctx, 'C05.FW-CLOSURE', 'wall|f_w', poly.from_term(og[0].mem['f_w']), poly.from_term(fw_t), up.where, 'f_w = g ((1 + c_w3^6)/(g^6 + c_w3^6))^(1/6)')
+                cw1 = add(mul(S('c_b1'), inv(kap2)), mul(add(poly.const(1), S('c_b2')), inv(S('sigma'))))
+                rs.compare(ctx, 'C05.FW-CLOSURE', 'wall|c_w1', poly.from_term(of[0].mem['c_w1']), cw1, up.where, 'c_w1 = c_b1/kappa^2 + (1 + c_b2)/sigma')
+            # ---- 5. the five sources
+            def ev(name):
+                return rs.evaluator_poly(prog, cls, scalar, name, co, freeze=FZ, want_trace=True)
+            F = {}
+            for f_ in ('rho', 'u', 'v', 'p', 'nu'):
+                F[f_], fnf, _ = ev('eval_exact_' + f_)
+                ctx.require(F[f_] is not None, 'fans_sa_steady_wall_bounded::eval_exact_%s missing' % f_)
+            Rr = fans_oracle(co, None, F=F, wall=(S('y'), S('@f_w'), S('c_w1')), S_override=add(S('@Sm'), S('@Omega')))
+            for eq in ('rho', 'rho_u', 'rho_v', 'rho_e', 'nu'):
+                Q, fn, tr = ev('eval_q_' + eq)
+                ctx.require(Q is not None, 'fans_sa_steady_wall_bounded::eval_q_%s missing' % eq)
+                rs.compare(ctx, 'C05.FW-RES', 'fans_sa_steady_wall_bounded|%s' % eq, Q, Rr[eq], fn.where, 'fans_sa_steady_wall_bounded::eval_q_%s(x,y)' % eq)
+        except rs.Inconclusive as ex:
+            raise AnalysisBroken(str(ex))
+        finally:
+            poly.SYM_RULES = {}
+    ctx.ob('C05.UNI', 'fans_sa_steady_wall_bounded', res['double'] == res['long double'], '', 'wall bounded: instantiations differ', sample='5 sources identical in both instantiations')
+
+
 def run(ctx, prog):
     ctx.rule('C05.RANS-DERIV', 'rans_sa: du, d2u, dnu, d2nu and dvt are the table derivatives (as functions of position) of u, nu and nu*f_v1(chi)')
     ctx.rule('C05.RANS-CLOSURE', 'rans_sa: each closure helper (chi, f_v1, f_v2, nu_t, c_w1, g, f_w, production, destruction, S with the negative-S modification, r with its limiter) equals the Spalart-Allmaras definition of its inputs')
@@ -376,8 +557,13 @@ def run(ctx, prog):
     ctx.explanation = ('Canonical normal-form equality. rans_sa is verified helper by helper against the SA definitions and the derivative table. For the free-shear solution the fields are kept as jet '
                        'symbols (their local copies are proved identical in all sources) and derivative jets are replaced by table derivatives. Continuity and the SA equation are proved; '
                        'the momentum and energy sources are definitely different from the residual because f_v1(chi) is treated as a constant under differentiation (confirmed: with that '
-                       'hypothesis the momentum sources match exactly) - known findings. fans_sa_steady_wall_bounded: residual NOT decided (composite wall-law fields outside the engine).')
+                       'hypothesis the momentum sources match exactly) - known findings. fans_sa_steady_wall_bounded: decided in layers - constants frozen, u_tau and y_plus as symbols with engine-proved derivative rules, T as a symbol '
+                       'with its chain-rule derivative, closure quantities compared separately; all five sources equal the residual.')
+    ctx.rule('C05.FW-LEMMA', 'wall bounded: u_tau = u_inf sqrt(c_f/2) with c_f ~ Re_x^(-1/7) satisfies 14 x du_tau/dx + u_tau = 0 and y_plus = y u_tau/nu_w the corresponding relations '
+             '(decided by the engine from update(); they are then used as derivative rules for the two symbols)')
+    ctx.rule('C05.FW-CLOSURE', 'wall bounded: Omega^2 = (dU/dy - dV/dx)^2, wall distance, f_v1, f_v2, mu_t, Sbar, the negative-S limiter, r, g, f_w, c_w1 equal the Spalart-Allmaras definitions')
+    ctx.rule('C05.FW-RES', 'wall bounded: each of the five sources equals the steady FANS-SA residual (wall destruction term included) of the exact fields the API returns')
     check_rans(ctx, prog)
     check_free_shear(ctx, prog)
-    ctx.note('fans_sa_steady_wall_bounded: source = residual is not decided by this check (only C10 cache discipline, C09, C14, C15 cover it)')
+    check_wall(ctx, prog)
     ctx.trusted = ['clang 14 front end', 'tools/masa-ir', 'sa/terms.py', 'sa/poly.py', 'the SA definitions and the FANS-SA operator in sa/checks/c05.py']
